@@ -8,72 +8,115 @@
 package openflow13
 
 // ---------------------------------------------------------------------------------------------
+// C02: every action / instruction encodes as type:16 length:16 ..., declares exactly its own size, is a multiple
+// of 8 bytes, and carries the type code of its kind (typecode(), from ofp_action_type / ofp_instruction_type);
+// Nicira actions additionally carry the vendor id 0x00002320 and their NXAST subtype (nxsubtype()).
+//@ iface Action
+//@ method MarshalBinary() (data, err) [C02]
+//@   ensures[C02] be16(data, 0) == uint16(typecode(self)) && be16(data, 2) == uint16(len(data)) && len(data) % 8 == 0
+//@   ensures[C02] typecode(self) == 65535 ==> be32(data, 4) == 8992 && be16(data, 8) == uint16(nxsubtype(self))
+// NXActionHeader is the embedded base of the Nicira actions and never an action on its own.
+//@ exempt Action NXActionHeader
+//@ iface Instruction
+//@ method MarshalBinary() (data, err) [C02]
+//@   ensures[C02] be16(data, 0) == uint16(typecode(self)) && be16(data, 2) == uint16(len(data)) && len(data) % 8 == 0
+
+// the 4/10-byte header encoders are inlined at their call sites (callers need their bytes, not only their size)
+//@ func (*ActionHeader).MarshalBinary(a) (data, err)
+//@   inline
+//@ func (*InstrHeader).MarshalBinary(a) (data, err)
+//@   inline
+//@ func (*NXActionHeader).MarshalBinary(a) (data, err)
+//@   inline
+
+// ---------------------------------------------------------------------------------------------
 // actions (OpenFlow 1.3.5 section 7.2.5)
 
 //@ spec size(a *ActionHeader) = 4
 //@ spec wf(a *ActionHeader) = true
+//@ spec nxsubtype(a *ActionHeader) = 0
+//@ spec typecode(a *ActionHeader) = int(a.Type)
 //@ spec size(a *ActionOutput) = 16
-//@ spec wf(a *ActionOutput) = len(a.pad) <= 6
+//@ spec wf(a *ActionOutput) = len(a.pad) <= 6 && (a.Type == 0) && a.Length == uint16(size(a))
+//@ spec typecode(a *ActionOutput) = 0
 //@ spec size(a *ActionSetqueue) = 8
-//@ spec wf(a *ActionSetqueue) = true
+//@ spec wf(a *ActionSetqueue) = (a.Type == 21) && a.Length == uint16(size(a))
+//@ spec typecode(a *ActionSetqueue) = 21
 //@ spec size(a *ActionGroup) = 8
-//@ spec wf(a *ActionGroup) = true
+//@ spec wf(a *ActionGroup) = (a.Type == 22) && a.Length == uint16(size(a))
+//@ spec typecode(a *ActionGroup) = 22
 //@ spec size(a *ActionMplsTtl) = 4
-//@ spec wf(a *ActionMplsTtl) = true
+//@ spec wf(a *ActionMplsTtl) = (a.Type == 15) && a.Length == uint16(size(a))
+//@ spec typecode(a *ActionMplsTtl) = 15
 //@ spec size(a *ActionNwTtl) = 4
-//@ spec wf(a *ActionNwTtl) = true
+//@ spec wf(a *ActionNwTtl) = (a.Type == 23) && a.Length == uint16(size(a))
+//@ spec typecode(a *ActionNwTtl) = 23
 //@ spec size(a *ActionDecNwTtl) = 8
-//@ spec wf(a *ActionDecNwTtl) = true
+//@ spec wf(a *ActionDecNwTtl) = (a.Type == 24) && a.Length == uint16(size(a))
+//@ spec typecode(a *ActionDecNwTtl) = 24
 //@ spec size(a *ActionPush) = 8
-//@ spec wf(a *ActionPush) = true
+//@ spec wf(a *ActionPush) = (a.Type == 17 || a.Type == 19 || a.Type == 26) && a.Length == uint16(size(a))
+//@ spec typecode(a *ActionPush) = int(a.Type)
+//@ spec nxsubtype(a *ActionPush) = 0
 //@ spec size(a *ActionPopVlan) = 8
-//@ spec wf(a *ActionPopVlan) = true
+//@ spec wf(a *ActionPopVlan) = (a.Type == 18) && a.Length == uint16(size(a))
+//@ spec typecode(a *ActionPopVlan) = 18
 //@ spec size(a *ActionPopMpls) = 8
-//@ spec wf(a *ActionPopMpls) = true
+//@ spec wf(a *ActionPopMpls) = (a.Type == 20) && a.Length == uint16(size(a))
+//@ spec typecode(a *ActionPopMpls) = 20
 //@ spec size(a *ActionSetField) = pad8(4 + size(a.Field))
-//@ spec wf(a *ActionSetField) = wf(a.Field)
+//@ spec wf(a *ActionSetField) = wf(a.Field) && (a.Type == 25) && a.Length == uint16(size(a))
+//@ spec typecode(a *ActionSetField) = 25
 
 // ---------------------------------------------------------------------------------------------
 // instructions (section 7.2.4)
 
 //@ spec size(i *InstrHeader) = 4
 //@ spec wf(i *InstrHeader) = true
+//@ spec typecode(i *InstrHeader) = int(i.Type)
 //@ spec size(i *InstrGotoTable) = 8
-//@ spec wf(i *InstrGotoTable) = len(i.pad) <= 1
+//@ spec wf(i *InstrGotoTable) = len(i.pad) <= 3 && (i.Type == 1) && i.Length == uint16(size(i))
+//@ spec typecode(i *InstrGotoTable) = 1
 //@ spec size(i *InstrWriteMetadata) = 24
-//@ spec wf(i *InstrWriteMetadata) = len(i.pad) <= 20
+//@ spec wf(i *InstrWriteMetadata) = len(i.pad) <= 20 && (i.Type == 2) && i.Length == uint16(size(i))
+//@ spec typecode(i *InstrWriteMetadata) = 2
 //@ spec size(i *InstrMeter) = 4
-//@ spec wf(i *InstrMeter) = true
+//@ spec wf(i *InstrMeter) = (i.Type == 6) && i.Length == uint16(size(i))
+//@ spec typecode(i *InstrMeter) = 6
 //@ spec size(i *InstrActions) = 8 + sum(i.Actions)
-//@ spec wf(i *InstrActions) = allwf(i.Actions) && len(i.pad) <= 4
+//@ spec wf(i *InstrActions) = allwf(i.Actions) && len(i.pad) <= 4 && (i.Type == 3 || i.Type == 4 || i.Type == 5) && i.Length == uint16(size(i))
+//@ spec typecode(i *InstrActions) = int(i.Type)
 
 //@ func (*InstrActions).Len(instr) (n)
+//@   requires allwf(instr.Actions)
 //@   loop 1:
 //@     invariant n == uint16(8 + sum(instr.Actions, #k))
 
 //@ func (*InstrActions).MarshalBinary(instr) (data, err)
 //@   loop 1:
-//@     invariant err == nil && len(data) == 8 + sum(instr.Actions, #k)
+//@     invariant err == nil && len(data) == 8 + sum(instr.Actions, #k) && len(data) % 8 == 0 && be16(data, 0) == instr.Type && be16(data, 2) == instr.Length
 
 // ---------------------------------------------------------------------------------------------
 // match (section 7.2.2, 7.2.3) and match-field payloads (Table 12 / meta-flow.h widths)
 
 //@ spec size(m *Match) = pad8(4 + sum(m.Fields))
-//@ spec wf(m *Match) = allwf(m.Fields)
+//@ spec wf(m *Match) = allwf(m.Fields) && m.Type == 1 && m.Length == uint16(4 + sum(m.Fields))
 
 //@ func (*Match).Len(m) (n)
 //@   loop 1:
 //@     invariant n == uint16(4 + sum(m.Fields, #k))
 
 //@ func (*Match).MarshalBinary(m) (data, err)
+//@   ensures[C02] be16(data, 0) == 1 && be16(data, 2) == uint16(4 + sum(m.Fields)) && len(data) % 8 == 0
 //@   flag notrunc
 //@   loop 1:
-//@     invariant n == 4 + sum(m.Fields, #k)
+//@     invariant n == 4 + sum(m.Fields, #k) && be16(data, 0) == m.Type && be16(data, 2) == m.Length
 
 //@ spec size(m *MatchField) = 4 + ite(m.ExperimenterID != 0, 4, 0) + size(m.Value) + ite(m.HasMask, size(m.Mask), 0)
-//@ spec wf(m *MatchField) = wf(m.Value) && (m.HasMask ==> wf(m.Mask))
+//@ spec wf(m *MatchField) = wf(m.Value) && (m.HasMask ==> wf(m.Mask)) && m.Field < 128 && int(m.Length) == size(m) - 4
 
 //@ func (*MatchField).MarshalBinary(m) (data, err)
+//@   ensures[C02 C03] be16(data, 0) == m.Class && u8(data, 2) == m.Field<<1 | ite(m.HasMask, uint8(1), uint8(0)) && int(u8(data, 3)) == len(data) - 4
 //@   flag notrunc
 
 //@ spec size(m *InPortField) = 4
@@ -148,10 +191,11 @@ package openflow13
 //@     invariant n == uint16(48 + size(f.Match) + sum(f.Instructions, #k))
 
 //@ func (*FlowMod).MarshalBinary(f) (data, err)
+//@   ensures[C01] u8(data, 0) == 4 && u8(data, 1) == 14 && be16(data, 2) == uint16(len(data))
 //@   ensures[C13 C01] f.Header.Length == uint16(size(f))
 //@   modifies f.Header.Length
 //@   loop 1:
-//@     invariant err == nil && len(data) == 48 + size(f.Match) + sum(f.Instructions, #k)
+//@     invariant err == nil && len(data) == 48 + size(f.Match) + sum(f.Instructions, #k) && u8(data, 0) == f.Header.Version && u8(data, 1) == f.Header.Type && be16(data, 2) == f.Header.Length
 
 //@ spec size(f *FlowRemoved) = 48 + size(f.Match)
 //@ spec wf(f *FlowRemoved) = wf(f.Match)
@@ -167,23 +211,26 @@ package openflow13
 //@     invariant n == uint16(16 + sum(g.Buckets, #k))
 
 //@ func (*GroupMod).MarshalBinary(g) (data, err)
+//@   ensures[C01] u8(data, 0) == 4 && u8(data, 1) == 15 && be16(data, 2) == uint16(len(data))
 //@   ensures[C13 C01] g.Header.Length == uint16(size(g))
 //@   modifies g.Header.Length
 //@   loop 1:
-//@     invariant err == nil && len(data) == 16 + sum(g.Buckets, #k)
+//@     invariant err == nil && len(data) == 16 + sum(g.Buckets, #k) && u8(data, 0) == g.Header.Version && u8(data, 1) == g.Header.Type && be16(data, 2) == g.Header.Length
 
 //@ spec size(b *Bucket) = pad8(16 + sum(b.Actions))
 //@ spec wf(b *Bucket) = allwf(b.Actions)
 
 //@ func (*Bucket).Len(b) (n)
+//@   requires allwf(b.Actions)
 //@   loop 1:
 //@     invariant n == uint16(16 + sum(b.Actions, #k))
 
 //@ func (*Bucket).MarshalBinary(b) (data, err)
+//@   ensures[C02] be16(data, 0) == uint16(len(data)) && len(data) % 8 == 0
 //@   ensures[C13 C02] b.Length == uint16(size(b))
 //@   modifies b.Length
 //@   loop 1:
-//@     invariant err == nil && len(data) == 16 + sum(b.Actions, #k)
+//@     invariant err == nil && len(data) == 16 + sum(b.Actions, #k) && len(data) % 8 == 0 && be16(data, 0) == b.Length
 
 //@ spec size(p *PhyPort) = 42 + len(p.HWAddr) + len(p.Name)
 //@ spec wf(p *PhyPort) = len(p.HWAddr) == 6 && len(p.Name) == 16 && len(p.pad) <= 4 && len(p.pad2) <= 2
@@ -195,6 +242,7 @@ package openflow13
 //@ spec wf(p *PortMod) = len(p.pad) <= 4 && len(p.HWAddr) <= 6 && len(p.pad2) <= 2 && len(p.pad3) <= 4 && p.Header.Version == 4 && p.Header.Type == 16
 
 //@ func (*PortMod).MarshalBinary(p) (data, err)
+//@   ensures[C01] u8(data, 0) == 4 && u8(data, 1) == 16 && be16(data, 2) == uint16(len(data))
 //@   ensures[C13 C01] p.Header.Length == uint16(size(p))
 //@   modifies p.Header.Length
 
@@ -205,19 +253,20 @@ package openflow13
 //@   ensures[C13 C01] s.Header.Length == uint16(size(s))
 //@   modifies s.Header.Length
 
-//@ spec size(p *PacketOut) = 24 + sum(p.Actions) + size(p.Data)
-//@ spec wf(p *PacketOut) = allwf(p.Actions) && wf(p.Data) && p.Header.Version == 4 && p.Header.Type == 13
+//@ spec size(p *PacketOut) = 24 + sum(p.Actions) + ite(p.Data != nil, size(p.Data), 0)
+//@ spec wf(p *PacketOut) = allwf(p.Actions) && p.ActionsLen == uint16(sum(p.Actions)) && (p.Data != nil ==> wf(p.Data)) && p.Header.Version == 4 && p.Header.Type == 13
 
 //@ func (*PacketOut).Len(p) (n)
 //@   loop 1:
 //@     invariant n == uint16(24 + sum(p.Actions, #k))
 
 //@ func (*PacketOut).MarshalBinary(p) (data, err)
+//@   ensures[C01] u8(data, 0) == 4 && u8(data, 1) == 13 && be16(data, 2) == uint16(len(data))
 //@   ensures[C13 C01] p.Header.Length == uint16(size(p))
 //@   flag notrunc
 //@   modifies p.Header.Length
 //@   loop 1:
-//@     invariant n == 24 + sum(p.Actions, #k)
+//@     invariant err == nil && n == 24 + sum(p.Actions, #k) && u8(data, 0) == p.Header.Version && u8(data, 1) == p.Header.Type && be16(data, 2) == p.Header.Length
 
 //@ spec size(p *PacketIn) = 26 + size(p.Match) + size(p.Data)
 //@ spec wf(p *PacketIn) = wf(p.Match) && wf(p.Data) && len(p.pad) <= 2
@@ -226,6 +275,7 @@ package openflow13
 //@ spec wf(c *SwitchConfig) = c.Header.Version == 4 && (c.Header.Type == 9 || c.Header.Type == 8)
 
 //@ func (*SwitchConfig).MarshalBinary(c) (data, err)
+//@   ensures[C01] u8(data, 0) == 4 && u8(data, 1) == c.Header.Type && be16(data, 2) == uint16(len(data))
 //@   ensures[C13 C01] c.Header.Length == uint16(size(c))
 //@   modifies c.Header.Length
 
@@ -259,6 +309,7 @@ package openflow13
 //@ spec wf(v *VendorHeader) = (v.VendorData != nil ==> wf(v.VendorData)) && v.Header.Version == 4 && v.Header.Type == 4
 
 //@ func (*VendorHeader).MarshalBinary(v) (data, err)
+//@   ensures[C01] u8(data, 0) == 4 && u8(data, 1) == 4 && be16(data, 2) == uint16(len(data))
 //@   ensures[C13 C01] v.Header.Length == uint16(size(v))
 //@   flag notrunc
 //@   modifies v.Header.Length
@@ -270,6 +321,7 @@ package openflow13
 //@ spec wf(s *MultipartRequest) = wf(s.Body) && s.Header.Version == 4 && s.Header.Type == 18
 
 //@ func (*MultipartRequest).MarshalBinary(s) (data, err)
+//@   ensures[C01] u8(data, 0) == 4 && u8(data, 1) == 18 && be16(data, 2) == uint16(len(data))
 //@   ensures[C13 C01] s.Header.Length == uint16(size(s))
 //@   modifies s.Header.Length
 
@@ -385,39 +437,55 @@ package openflow13
 // Nicira extension actions (nicira-ext.h nx_action_*): 16-bit length lives in the embedded ofp action header
 
 //@ spec size(a *NXActionHeader) = 10
-//@ spec wf(a *NXActionHeader) = a.ActionHeader != nil
+//@ spec wf(a *NXActionHeader) = a.ActionHeader != nil && a.Type == 65535 && a.Vendor == 8992
+//@ spec typecode(a *NXActionHeader) = 65535
+//@ spec nxsubtype(a *NXActionHeader) = int(a.Subtype)
 
 //@ spec size(a *NXActionConjunction) = 16
-//@ spec wf(a *NXActionConjunction) = wf(a.NXActionHeader) && a.Length == 16
+//@ spec wf(a *NXActionConjunction) = wf(a.NXActionHeader) && a.Length == 16 && int(a.Subtype) == nxsubtype(a)
+//@ spec typecode(a *NXActionConjunction) = 65535
+//@ spec nxsubtype(a *NXActionConjunction) = 34
 
 //@ spec size(a *NXActionConnTrack) = 24 + sum(a.actions)
-//@ spec wf(a *NXActionConnTrack) = wf(a.NXActionHeader) && a.Length == uint16(24 + sum(a.actions)) && allwf(a.actions) && len(a.pad) <= 3
+//@ spec wf(a *NXActionConnTrack) = wf(a.NXActionHeader) && a.Length == uint16(24 + sum(a.actions)) && allwf(a.actions) && len(a.pad) <= 3 && int(a.Subtype) == nxsubtype(a)
+//@ spec typecode(a *NXActionConnTrack) = 65535
+//@ spec nxsubtype(a *NXActionConnTrack) = 35
 
 //@ func (*NXActionConnTrack).MarshalBinary(a) (data, err)
 //@   flag notrunc
 //@   loop 1:
-//@     invariant n == 24 + sum(a.actions, #k)
+//@     invariant n == 24 + sum(a.actions, #k) && n % 8 == 0 && be16(data, 0) == a.Type && be16(data, 2) == a.Length && be32(data, 4) == a.Vendor && be16(data, 8) == a.Subtype
 
 //@ spec size(a *NXActionRegLoad) = 24
-//@ spec wf(a *NXActionRegLoad) = wf(a.NXActionHeader) && a.Length == 24 && a.DstReg != nil && a.DstReg.Field < 128
+//@ spec wf(a *NXActionRegLoad) = wf(a.NXActionHeader) && a.Length == 24 && a.DstReg != nil && a.DstReg.Field < 128 && int(a.Subtype) == nxsubtype(a)
+//@ spec typecode(a *NXActionRegLoad) = 65535
+//@ spec nxsubtype(a *NXActionRegLoad) = 7
 
 //@ spec size(a *NXActionRegMove) = 24
-//@ spec wf(a *NXActionRegMove) = wf(a.NXActionHeader) && a.Length == 24 && a.SrcField != nil && a.DstField != nil && a.SrcField.Field < 128 && a.DstField.Field < 128
+//@ spec wf(a *NXActionRegMove) = wf(a.NXActionHeader) && a.Length == 24 && a.SrcField != nil && a.DstField != nil && a.SrcField.Field < 128 && a.DstField.Field < 128 && int(a.Subtype) == nxsubtype(a)
+//@ spec typecode(a *NXActionRegMove) = 65535
+//@ spec nxsubtype(a *NXActionRegMove) = 6
 
 //@ spec size(a *NXActionResubmit) = 16
-//@ spec wf(a *NXActionResubmit) = wf(a.NXActionHeader) && a.Length == 16
+//@ spec wf(a *NXActionResubmit) = wf(a.NXActionHeader) && a.Length == 16 && int(a.Subtype) == nxsubtype(a)
+//@ spec typecode(a *NXActionResubmit) = 65535
+//@ spec nxsubtype(a *NXActionResubmit) = 1
 
 //@ func (*NXActionResubmit).MarshalBinary(a) (data, err)
 //@   ensures[C13] a.TableID == 255
 //@   modifies a.TableID
 
 //@ spec size(a *NXActionResubmitTable) = 16
-//@ spec wf(a *NXActionResubmitTable) = wf(a.NXActionHeader) && a.Length == 16
+//@ spec wf(a *NXActionResubmitTable) = wf(a.NXActionHeader) && a.Length == 16 && int(a.Subtype) == nxsubtype(a)
+//@ spec typecode(a *NXActionResubmitTable) = 65535
+//@ spec nxsubtype(a *NXActionResubmitTable) = ite(a.withCT, 44, 14)
 
 // NAT: 16 fixed bytes, then the range fields that are present, padded to 8. Len() rounds the stored length in place.
 //@ spec natlen(a *NXActionCTNAT) = 16 + ite(a.rangeIPv4Min != nil, 4, 0) + ite(a.rangeIPv4Max != nil, 4, 0) + ite(a.rangeIPv6Min != nil, 16, 0) + ite(a.rangeIPv6Max != nil, 16, 0) + ite(a.rangeProtoMin != nil, 2, 0) + ite(a.rangeProtoMax != nil, 2, 0)
 //@ spec size(a *NXActionCTNAT) = pad8(natlen(a))
-//@ spec wf(a *NXActionCTNAT) = wf(a.NXActionHeader) && (int(a.Length) == natlen(a) || int(a.Length) == pad8(natlen(a)))
+//@ spec wf(a *NXActionCTNAT) = wf(a.NXActionHeader) && (int(a.Length) == natlen(a) || int(a.Length) == pad8(natlen(a))) && int(a.Subtype) == nxsubtype(a)
+//@ spec typecode(a *NXActionCTNAT) = 65535
+//@ spec nxsubtype(a *NXActionCTNAT) = 36
 
 //@ func (*NXActionCTNAT).Len(a) (n)
 //@   ensures[C13 C02] int(a.Length) == pad8(natlen(a))
@@ -428,20 +496,28 @@ package openflow13
 //@   modifies a.Length
 
 //@ spec size(a *NXActionOutputReg) = 24
-//@ spec wf(a *NXActionOutputReg) = wf(a.NXActionHeader) && a.Length == 24 && a.SrcField != nil && a.SrcField.Field < 128
+//@ spec wf(a *NXActionOutputReg) = wf(a.NXActionHeader) && a.Length == 24 && a.SrcField != nil && a.SrcField.Field < 128 && (a.Subtype == 15 || a.Subtype == 32)
+//@ spec typecode(a *NXActionOutputReg) = 65535
+//@ spec nxsubtype(a *NXActionOutputReg) = int(a.Subtype)
 
 //@ spec size(a *NXActionCTClear) = 16
-//@ spec wf(a *NXActionCTClear) = wf(a.NXActionHeader) && a.Length == 16
+//@ spec wf(a *NXActionCTClear) = wf(a.NXActionHeader) && a.Length == 16 && int(a.Subtype) == nxsubtype(a)
+//@ spec typecode(a *NXActionCTClear) = 65535
+//@ spec nxsubtype(a *NXActionCTClear) = 43
 
 //@ spec size(a *NXActionDecTTL) = 16
-//@ spec wf(a *NXActionDecTTL) = wf(a.NXActionHeader) && a.Length == 16
+//@ spec wf(a *NXActionDecTTL) = wf(a.NXActionHeader) && a.Length == 16 && int(a.Subtype) == nxsubtype(a)
+//@ spec typecode(a *NXActionDecTTL) = 65535
+//@ spec nxsubtype(a *NXActionDecTTL) = 18
 
-//@ spec size(a *NXActionDecTTLCntIDs) = 16 + 2*len(a.cntIDs)
-//@ spec wf(a *NXActionDecTTLCntIDs) = wf(a.NXActionHeader) && a.Length == uint16(16 + 2*len(a.cntIDs))
+//@ spec size(a *NXActionDecTTLCntIDs) = pad8(16 + 2*len(a.cntIDs))
+//@ spec wf(a *NXActionDecTTLCntIDs) = wf(a.NXActionHeader) && a.Length == uint16(pad8(16 + 2*len(a.cntIDs))) && int(a.Subtype) == nxsubtype(a)
+//@ spec typecode(a *NXActionDecTTLCntIDs) = 65535
+//@ spec nxsubtype(a *NXActionDecTTLCntIDs) = 21
 
 //@ func (*NXActionDecTTLCntIDs).MarshalBinary(a) (data, err)
 //@   loop 1:
-//@     invariant n == 16 + 2*#k
+//@     invariant n == 16 + 2*#k && be16(data, 0) == a.Type && be16(data, 2) == a.Length && be32(data, 4) == a.Vendor && be16(data, 8) == a.Subtype
 
 //@ spec size(h *NXLearnSpecHeader) = 2
 //@ spec wf(h *NXLearnSpecHeader) = h.length == 2 && h.nBits < 2048
@@ -456,7 +532,9 @@ package openflow13
 //@   flag notrunc
 
 //@ spec size(a *NXActionLearn) = pad8(32 + sum(a.LearnSpecs))
-//@ spec wf(a *NXActionLearn) = wf(a.NXActionHeader) && allwf(a.LearnSpecs)
+//@ spec wf(a *NXActionLearn) = wf(a.NXActionHeader) && allwf(a.LearnSpecs) && int(a.Subtype) == nxsubtype(a)
+//@ spec typecode(a *NXActionLearn) = 65535
+//@ spec nxsubtype(a *NXActionLearn) = 16
 
 //@ func (*NXActionLearn).Len(a) (n)
 //@   loop 1:
@@ -467,10 +545,12 @@ package openflow13
 //@   flag notrunc
 //@   modifies a.Length
 //@   loop 1:
-//@     invariant err == nil && n == 32 + sum(a.LearnSpecs, #k)
+//@     invariant err == nil && n == 32 + sum(a.LearnSpecs, #k) && be16(data, 0) == a.Type && be16(data, 2) == a.Length && be32(data, 4) == a.Vendor && be16(data, 8) == a.Subtype
 
 //@ spec size(a *NXActionNote) = pad8(10 + len(a.Note))
-//@ spec wf(a *NXActionNote) = wf(a.NXActionHeader)
+//@ spec wf(a *NXActionNote) = wf(a.NXActionHeader) && int(a.Subtype) == nxsubtype(a)
+//@ spec typecode(a *NXActionNote) = 65535
+//@ spec nxsubtype(a *NXActionNote) = 8
 
 //@ func (*NXActionNote).MarshalBinary(a) (data, err)
 //@   ensures[C13 C02] a.Length == uint16(size(a))
@@ -478,7 +558,9 @@ package openflow13
 //@   modifies a.Length
 
 //@ spec size(a *NXActionRegLoad2) = pad8(10 + size(a.DstField))
-//@ spec wf(a *NXActionRegLoad2) = wf(a.NXActionHeader) && wf(a.DstField)
+//@ spec wf(a *NXActionRegLoad2) = wf(a.NXActionHeader) && wf(a.DstField) && int(a.Subtype) == nxsubtype(a)
+//@ spec typecode(a *NXActionRegLoad2) = 65535
+//@ spec nxsubtype(a *NXActionRegLoad2) = 33
 
 //@ func (*NXActionRegLoad2).MarshalBinary(a) (data, err)
 //@   ensures[C13 C02] a.Length == uint16(size(a))
@@ -486,8 +568,219 @@ package openflow13
 //@   modifies a.Length
 
 //@ spec size(a *NXActionController) = 16
-//@ spec wf(a *NXActionController) = wf(a.NXActionHeader)
+//@ spec wf(a *NXActionController) = wf(a.NXActionHeader) && int(a.Subtype) == nxsubtype(a)
+//@ spec typecode(a *NXActionController) = 65535
+//@ spec nxsubtype(a *NXActionController) = 20
 
 //@ func (*NXActionController).MarshalBinary(a) (data, err)
 //@   ensures[C13 C02] a.Length == uint16(size(a))
 //@   modifies a.Length
+
+// ---------------------------------------------------------------------------------------------
+// constructors that need preconditions on their arguments (all other New* functions carry the automatic
+// contract "ensures r != nil && wf(r)"); callers inline constructors, the contract is the constructor's own proof
+
+//@ func NewEthDstField(ethDst, ethDstMask) (r) [C01 C02]
+//@   inline
+//@   requires len(ethDst) == 6 && (ethDstMask != nil ==> len(*ethDstMask) == 6)
+//@   ensures r != nil && wf(r)
+//@ func NewEthSrcField(ethSrc, ethSrcMask) (r) [C01 C02]
+//@   inline
+//@   requires len(ethSrc) == 6 && (ethSrcMask != nil ==> len(*ethSrcMask) == 6)
+//@   ensures r != nil && wf(r)
+//@ func NewIpv6SrcField(ipSrc, ipSrcMask) (r) [C01 C02]
+//@   inline
+//@   requires len(ipSrc) == 16 && (ipSrcMask != nil ==> len(*ipSrcMask) == 16)
+//@   ensures r != nil && wf(r)
+//@ func NewIpv6DstField(ipDst, ipDstMask) (r) [C01 C02]
+//@   inline
+//@   requires len(ipDst) == 16 && (ipDstMask != nil ==> len(*ipDstMask) == 16)
+//@   ensures r != nil && wf(r)
+//@ func NewArpThaField(arpTha) (r) [C01 C02]
+//@   inline
+//@   requires len(arpTha) == 6
+//@   ensures r != nil && wf(r)
+//@ func NewArpShaField(arpSha) (r) [C01 C02]
+//@   inline
+//@   requires len(arpSha) == 6
+//@   ensures r != nil && wf(r)
+//@ func NewNxARPShaMatchField(addr, mask) (r) [C01 C02]
+//@   inline
+//@   requires len(addr) == 6 && (mask != nil ==> len(mask) == 6)
+//@   ensures r != nil && wf(r)
+//@ func NewNxARPThaMatchField(addr, mask) (r) [C01 C02]
+//@   inline
+//@   requires len(addr) == 6 && (mask != nil ==> len(mask) == 6)
+//@   ensures r != nil && wf(r)
+//@ func NewActionSetField(field) (r) [C01 C02]
+//@   inline
+//@   requires wf(field)
+//@   ensures r != nil && wf(r)
+//@ func NewNXActionRegLoad(ofsNbits, dstField, value) (r) [C01 C02]
+//@   inline
+//@   requires dstField != nil && dstField.Field < 128
+//@   ensures r != nil && wf(r)
+//@ func NewNXActionRegLoad2(dstField) (r) [C01 C02]
+//@   inline
+//@   requires wf(dstField)
+//@   ensures r != nil && wf(r)
+//@ func NewNXActionRegMove(nBits, srcOfs, dstOfs, srcField, dstField) (r) [C01 C02]
+//@   inline
+//@   requires srcField != nil && srcField.Field < 128 && dstField != nil && dstField.Field < 128
+//@   ensures r != nil && wf(r)
+//@ func NewOutputFromField(srcField, ofsNbits) (r) [C01 C02]
+//@   inline
+//@   requires srcField != nil && srcField.Field < 128
+//@   ensures r != nil && wf(r)
+//@ func NewOutputFromFieldWithMaxLen(srcField, ofsNbits, maxLen) (r) [C01 C02]
+//@   inline
+//@   requires srcField != nil && srcField.Field < 128
+//@   ensures r != nil && wf(r)
+//@ func NewLearnHeaderMatchFromValue(nBits) (r) [C02]
+//@   inline
+//@   requires nBits < 2048
+//@   ensures r != nil && wf(r)
+//@ func NewLearnHeaderMatchFromField(nBits) (r) [C02]
+//@   inline
+//@   requires nBits < 2048
+//@   ensures r != nil && wf(r)
+//@ func NewLearnHeaderLoadFromValue(nBits) (r) [C02]
+//@   inline
+//@   requires nBits < 2048
+//@   ensures r != nil && wf(r)
+//@ func NewLearnHeaderLoadFromField(nBits) (r) [C02]
+//@   inline
+//@   requires nBits < 2048
+//@   ensures r != nil && wf(r)
+//@ func NewLearnHeaderOutputFromField(nBits) (r) [C02]
+//@   inline
+//@   requires nBits < 2048
+//@   ensures r != nil && wf(r)
+//@ func NewBundleControl(bundleControl) (r) [C01]
+//@   inline
+//@   allowglobals
+//@   requires bundleControl != nil
+//@   ensures r != nil && wf(r)
+//@ func NewBundleAdd(bundleAdd) (r) [C01]
+//@   inline
+//@   allowglobals
+//@   requires wf(bundleAdd)
+//@   ensures r != nil && wf(r)
+//@ func NewTLVTableModMessage(tlvMod) (r) [C01]
+//@   inline
+//@   allowglobals
+//@   requires wf(tlvMod)
+//@   ensures r != nil && wf(r)
+//@ func NewTLVTableMod(command, tlvMaps) (r) [C01]
+//@   inline
+//@   requires allwf(tlvMaps)
+//@   ensures r != nil && wf(r)
+//@ func NewPacketIn() (r)
+//@   inline
+//@   allowglobals
+//@   ensures r != nil
+//@ func NewPortStatus() (r)
+//@   inline
+//@   allowglobals
+//@   ensures r != nil
+//@ func NewRegMatchField(idx, data, dataRng) (r) [C02 C17]
+//@   inline
+//@   requires 0 <= idx && idx <= 15 && (dataRng != nil ==> 0 <= dataRng.start && dataRng.start <= dataRng.end && dataRng.end <= 31)
+//@   ensures r != nil && wf(r)
+//@ func NewTunMetadataField(idx, data, mask) (r) [C02]
+//@   inline
+//@   requires 0 <= idx && idx <= 7 && len(data) <= 124 && len(mask) <= 124
+//@   ensures r != nil && wf(r)
+
+// ---------------------------------------------------------------------------------------------
+// builders preserve the representation invariant (C01 C02): induction over all builder histories
+
+//@ func (*FlowMod).AddInstruction(f, instr) [C01 C02]
+//@   requires wf(f) && wf(instr)
+//@   modifies f.Instructions
+//@   ensures wf(f)
+
+//@ func (*GroupMod).AddBucket(g, bkt) [C01 C02]
+//@   requires wf(g) && wf(bkt)
+//@   modifies g.Buckets
+//@   ensures wf(g)
+
+//@ func (*Bucket).AddAction(b, act) [C02]
+//@   requires wf(b) && wf(act)
+//@   modifies b.Actions
+//@   ensures wf(b)
+
+//@ func (*PacketOut).AddAction(p, act) [C01 C02]
+//@   requires wf(p) && wf(act)
+//@   modifies p.Actions, p.ActionsLen
+//@   ensures wf(p)
+
+//@ func (*PacketOut).SetData(p, data) [C01]
+//@   requires wf(p)
+//@   modifies p.Data
+//@   ensures wf(p)
+
+//@ func (*Match).AddField(m, f) [C01 C02]
+//@   requires wf(m) && wf(f)
+//@   modifies m.Fields, m.Length
+//@   ensures wf(m)
+
+// (the prepend path builds the list with append([]Action{act}, old...), an append of a symbolic-length element
+// sequence, which the executor does not model: only the append path is under contract)
+//@ func (*InstrActions).AddAction(instr, act, prepend) (err) [C02]
+//@   requires wf(instr) && wf(act) && !prepend
+//@   modifies instr.Actions, instr.Length
+//@   ensures err == nil && wf(instr)
+
+//@ func (*NXActionConnTrack).AddAction(a, actions) (r) [C02]
+//@   requires wf(a) && allwf(actions)
+//@   modifies a.actions, a.Length
+//@   ensures wf(a)
+//@   loop 1:
+//@     invariant wf(a)
+
+// Len() of the fixed-size kinds does not depend on the representation invariant (constructors call it while
+// they are still establishing it): weaker preconditions of their own (refinement obligation: wf ==> these).
+//@ func (*ActionOutput).Len(a) (n)
+//@   requires true
+//@ func (*ActionSetqueue).Len(a) (n)
+//@   requires true
+//@ func (*ActionGroup).Len(a) (n)
+//@   requires true
+//@ func (*ActionDecNwTtl).Len(a) (n)
+//@   requires true
+//@ func (*ActionPush).Len(a) (n)
+//@   requires true
+//@ func (*ActionPopVlan).Len(a) (n)
+//@   requires true
+//@ func (*ActionPopMpls).Len(a) (n)
+//@   requires true
+//@ func (*ActionSetField).Len(a) (n)
+//@   requires wf(a.Field)
+//@ func (*InstrGotoTable).Len(instr) (n)
+//@   requires true
+//@ func (*InstrWriteMetadata).Len(instr) (n)
+//@   requires true
+//@ func (*ActionHeader).Len(a) (n)
+//@   requires true
+//@ func (*InstrHeader).Len(a) (n)
+//@   requires true
+
+//@ property C01 min-obligations 300
+//@ property C02 min-obligations 600
+
+//@ func lemmaFramedEchoRequest() (b) [C01]
+//@   allowglobals
+//@   ensures len(b) == 8 && u8(b, 0) == 4 && u8(b, 1) == 2 && be16(b, 2) == 8
+//@ func lemmaFramedEchoReply() (b) [C01]
+//@   allowglobals
+//@   ensures len(b) == 8 && u8(b, 0) == 4 && u8(b, 1) == 3 && be16(b, 2) == 8
+//@ func lemmaFramedFeaturesRequest() (b) [C01]
+//@   allowglobals
+//@   ensures len(b) == 8 && u8(b, 0) == 4 && u8(b, 1) == 5 && be16(b, 2) == 8
+//@ func lemmaFramedConfigRequest() (b) [C01]
+//@   allowglobals
+//@   ensures len(b) == 8 && u8(b, 0) == 4 && u8(b, 1) == 7 && be16(b, 2) == 8
+//@ func lemmaFramedSetConfig(flags, miss) (b) [C01]
+//@   allowglobals
+//@   ensures len(b) == 12 && u8(b, 0) == 4 && u8(b, 1) == 9 && be16(b, 2) == 12
